@@ -2,6 +2,7 @@
 from ..framework import Prop, mk, ensure_repo_on_path
 from .. import txfmt
 from . import c03 as G
+from . import sighash_hist as H
 
 U32 = G.U32
 I64MAX = G.I64MAX
@@ -26,7 +27,8 @@ class C04(Prop):
             '{0, 2^31-1, 2^31, 2^32-1} and random x script codes of length {0, 0xfc, 0xfd, 300, small, mined} x amounts '
             '{0, 1, 2^63-1, random} x every valid index x ALL 256 hash-type bytes; hash types outside one byte / '
             'negative / outside int32; every case also observes that the transaction object is unchanged; a subset '
-            'is re-evaluated under Spec')
+            'is re-evaluated under Spec; histories: one live object hashed, edited in place, hashed again, witness-v0 and '
+            'legacy interleaved on the same object')
 
     def setup(self):
         ensure_repo_on_path()
@@ -78,6 +80,9 @@ class C04(Prop):
         # every lock-time edge occurs in every shard's first transactions
         for k, t in enumerate(txs[:4]):
             t['lock'] = EDGE32[(k + shard) % 4]
+        # (H) histories: ONE live object hashed, edited in place, hashed again (stale memoisation / aliasing)
+        for _ in range(max(1, (4800 if big else 320) // nshards)):
+            yield mk('c04.hist', *H.gen_history(rng, G, self.pool, 'v0', big), tag='history')
         n = 0
         for t in txs:
             text = txfmt.show_tx(t)
@@ -100,10 +105,14 @@ class C04(Prop):
                     n += 1
 
     def model_line(self, c):
+        if c['op'] == 'c04.hist':
+            return H.model_line('c04.hist', c)
         return '\t'.join([c['op']] + list(c['args'][1:]))
 
     def impl(self, c):
         S = self.S
+        if c['op'] == 'c04.hist':
+            return H.run_history(c, self.C, S, G.guarded)
         cls, sc, text, idx, ht, amount = c['args']
         tx = self.cache.get(cls, text)
         before = G.snapshot(tx)
@@ -118,11 +127,19 @@ class C04(Prop):
             return out + '|TX-CHANGED'
         return out
 
+    def agree(self, c, io, mo):
+        if c['op'] == 'c04.hist':
+            return H.agree(io, mo)
+        return io == mo
+
     def nontrivial(self, c, io):
         return True
 
     def shrink_candidates(self, c):
         op, tag = c['op'], c.get('tag', '')
+        if op == 'c04.hist':
+            yield from H.shrink_history(mk, op, c)
+            return
         cls, sc, text, idx, ht, amount = c['args']
         t, idx = txfmt.parse_tx(text), int(idx)
         for s2 in G.shrink_script(bytes.fromhex(sc)):
@@ -139,6 +156,19 @@ class C04(Prop):
 
     def signature(self, c, io, mo):
         # D1: struct.pack("<i", txTo.nLockTime) raises struct.error for lock times >= 2^31
+        if c['op'] == 'c04.hist':
+            # D1 inside a history: every differing answer is a struct.error of a v0 call at a lock time >= 2^31
+            try:
+                sts = H.states(txfmt.parse_tx(c['args'][2]), __import__('json').loads(c['args'][4]))
+                a, b = io[2:].split(','), mo.split(',')
+                diff = [k for k in range(len(sts)) if a[k] != b[k]]
+                if diff and len(a) == len(b) == len(sts) and all(
+                        a[k] == 'err:py:error' and not b[k].startswith('err:') and sts[k][0][1] == 'v0'
+                        and txfmt.parse_tx(sts[k][1])['lock'] >= (1 << 31) for k in diff):
+                    return 'D1-bip143-locktime-signed'
+            except Exception:  # noqa: BLE001
+                pass
+            return None
         try:
             lock = txfmt.parse_tx(c['args'][2])['lock']
         except Exception:  # noqa: BLE001
